@@ -41,7 +41,12 @@ def run(ctx):
     # tightness: the reported cost is smaller than the base that is checked against the budget
     f6 = gen_prog.op(bytes.fromhex("7fd0110580"), gen_prog.q(gen.Rep(0x41, 1 << 20)), gen_prog.q(gen.Rep(0x42, 1 << 20)))
     pool.append((gen.tt(f6), gen.tt(b""), "directed-F6"))
+    # directed: long argument lists / deep trees of (almost) empty atoms for the operators that check the budget
+    # while they work; each runs under both cost models with its enabling flag
     base = []
+    for p, e, bit, what in gen_prog.long_work_programs(r):
+        for ncm in (0, FLAG["NEW_COST_MODEL"]):
+            base.append((p, e, bit | ncm))
     for p, e, tag in pool:
         if tag.startswith("guard[f="):
             f = int(tag.split("=")[1].split()[0])
